@@ -24,6 +24,7 @@ RULE = (
     'inside a container, or the callable kind is not a plain function. Distinct = distinct '
     'SHA-1 of the case JSON.'
 )
+RULE += (' ' + 'Also generated: sequences of Buildables over unhashable callable instances (eq=True dataclasses with __call__).')
 ASSUMPTIONS = [
     'inspect.signature of the universe callables is correct (CPython)',
     'reference evaluator refmodel.ref_build/form_call (about 60 lines) is correct',
